@@ -9,6 +9,8 @@ import (
 	"flag"
 	"fmt"
 	"os"
+	"sync"
+	"time"
 
 	"verif/harness/tr"
 )
@@ -23,6 +25,51 @@ type Args struct {
 }
 
 var drivers = map[string]func(a Args) tr.Summary{}
+
+// ---- per-case watchdog: a case of a sequential driver that makes no progress for caseTimeout is
+// reported as a direct observation (the real code hung) and the driver stops there ----
+
+var (
+	wdMu      sync.Mutex
+	wdCase    int
+	wdInput   interface{}
+	wdSig     tr.Rec
+	wdTouched time.Time
+	wdOn      bool
+)
+
+const caseTimeout = 45 * time.Second
+
+// Watch marks the start of a case (or progress inside one).
+func Watch(id int, sig tr.Rec, input interface{}) {
+	wdMu.Lock()
+	wdCase, wdInput, wdSig, wdTouched = id, input, sig, time.Now()
+	if !wdOn {
+		wdOn = true
+		go func() {
+			for {
+				time.Sleep(time.Second)
+				wdMu.Lock()
+				stuck := time.Since(wdTouched) > caseTimeout
+				id, in, sg := wdCase, wdInput, wdSig
+				wdMu.Unlock()
+				if stuck {
+					sig := tr.Rec{"oracle": "hang"}
+					for k, v := range sg {
+						sig[k] = v
+					}
+					s := tr.Summary{Cases: id, Direct: []tr.Rec{{"sig": sig, "input": in, "driver": os.Args[1],
+						"what": fmt.Sprintf("case %d made no progress for %s: the code under test hangs", id, caseTimeout)}},
+						Extra: tr.Rec{"aborted": true}}
+					b, _ := json.Marshal(s)
+					fmt.Println("SUMMARY " + string(b))
+					os.Exit(0)
+				}
+			}
+		}()
+	}
+	wdMu.Unlock()
+}
 
 func main() {
 	if len(os.Args) < 2 {
